@@ -6,6 +6,7 @@ Local Open Scope string_scope.
 (* xsync_map.go: func newXsyncMap *)
 Definition janitor_guard_map : string := "cfg.CleanupInterval > 0".
 Definition janitor_captures_map : list string := ["c"; "cfg"].
+Definition janitor_tick_map : string := "c.DeleteExpired()".
 Definition finalizer_target_map : string := "cache".
 Definition finalizer_target_def_map : string := "&xsyncMapWrapper{c}".
 Definition finalizer_body_map : string := "{ close(m.stop) }".
@@ -13,6 +14,7 @@ Definition finalizer_body_map : string := "{ close(m.stop) }".
 (* xsync_mapof.go: func newXsyncMapOf *)
 Definition janitor_guard_mapof : string := "cfg.CleanupInterval > 0".
 Definition janitor_captures_mapof : list string := ["c"; "cfg"].
+Definition janitor_tick_mapof : string := "c.DeleteExpired()".
 Definition finalizer_target_mapof : string := "cache".
 Definition finalizer_target_def_mapof : string := "&xsyncMapOfWrapper[K, V]{c}".
 Definition finalizer_body_mapof : string := "{ close(m.stop) }".
